@@ -45,11 +45,15 @@ impl Effect for RateProbe {
 struct StepSound {
 	at: f64,
 	elapsed: f64,
+	impulse: bool, // only the first frame at or after `at` is non-zero
+	fired: bool,
 }
 impl Sound for StepSound {
 	fn process(&mut self, out: &mut [Frame], dt: f64, _info: &Info) {
 		for f in out {
-			*f = if self.elapsed >= self.at - 1e-9 { Frame::new(1.0, 1.0) } else { Frame::ZERO };
+			let on = self.elapsed >= self.at - 1e-9 && !(self.impulse && self.fired);
+			*f = if on { Frame::new(1.0, 1.0) } else { Frame::ZERO };
+			self.fired |= on;
 			self.elapsed += dt;
 		}
 	}
@@ -57,12 +61,12 @@ impl Sound for StepSound {
 		false
 	}
 }
-struct StepData(f64);
+struct StepData(f64, bool);
 impl SoundData for StepData {
 	type Error = ();
 	type Handle = ();
 	fn into_sound(self) -> Result<(Box<dyn Sound>, ()), ()> {
-		Ok((Box::new(StepSound { at: self.0, elapsed: 0.0 }), ()))
+		Ok((Box::new(StepSound { at: self.0, elapsed: 0.0, impulse: self.1, fired: false }), ()))
 	}
 }
 
@@ -134,11 +138,11 @@ fn run_rates(sc: &Value, t: &mut Tracer) {
 					Value::Null
 				});
 				let _ = gw.wait();
-				t.ev(json!({"a": "tau"}));
+				t.ev(json!({"a": "load", "t": id}));
 			}
 			"GEnqueue" => {
 				let _ = gw.finish();
-				t.ev(json!({"a": "tau"}));
+				t.ev(json!({"a": "enq"}));
 			}
 			"Change" => {
 				let r = step["r"].as_u64().unwrap() as u32;
@@ -157,7 +161,7 @@ fn run_rates(sc: &Value, t: &mut Tracer) {
 				v.sort();
 				v.dedup();
 				pending = v;
-				t.ev(json!({"a": "tau"}));
+				t.ev(json!({"a": "cbk"}));
 			}
 			"Emit" => {
 				if !pending.is_empty() {
@@ -208,7 +212,7 @@ fn run_measure(sc: &Value, t: &mut Tracer) {
 				.manager
 				.add_sub_track(TrackBuilder::new().with_effect(FilterBuilder::new().cutoff(10.0)))
 				.unwrap();
-			tr.play(StepData(0.2)).unwrap();
+			tr.play(StepData(0.2, false)).unwrap();
 			std::mem::forget(tr);
 			secs1000 = 27;
 		}
@@ -219,11 +223,16 @@ fn run_measure(sc: &Value, t: &mut Tracer) {
 					DelayBuilder::new().delay_time(Duration::from_millis(500)).feedback(Decibels(-6.0)).mix(Mix(0.5)),
 				))
 				.unwrap();
-			let mut frames = vec![Frame::ZERO; 40];
-			frames[0] = Frame::new(0.5, 0.5);
-			// an impulse at the device rate, so that it is one frame wide
-			let h = tr.play(StaticSoundData { sample_rate: rates[0], frames: frames.into(), settings: StaticSoundSettings::new(), slice: None }).unwrap();
-			std::mem::forget(h);
+			if rates.len() > 1 {
+				// across a change: the impulse comes half a second after the switch (one frame wide at any rate)
+				tr.play(StepData((switch_ms as f64 + 500.0) / 1000.0, true)).unwrap();
+			} else {
+				let mut frames = vec![Frame::ZERO; 40];
+				frames[0] = Frame::new(0.5, 0.5);
+				// an impulse at the device rate, so that it is one frame wide
+				let h = tr.play(StaticSoundData { sample_rate: rates[0], frames: frames.into(), settings: StaticSoundSettings::new(), slice: None }).unwrap();
+				std::mem::forget(h);
+			}
 			std::mem::forget(tr);
 			secs1000 = 500;
 		}
